@@ -6,15 +6,15 @@ sys.path.insert(0, V)
 from bitsim.runner import ENGINES
 
 CLAIMS = {
- 'C03': ('exploration', '4/C03', 'seeded programs of mutators on one BitArray/BitStream compared in lock-step with a list-of-bits reference model; faulty producers and rejected calls as injected faults; cache clears between events',
+ 'C03': ('exploration', '4/C03', 'seeded programs of mutators on one BitArray/BitStream compared in lock-step with a list-of-bits reference model; faulty producers and rejected calls as injected faults; cache clears and options.bytealigned changes between events; a fifth of the runs under options.lsb0 (the msb0 specification on mirrored content and operands)',
          'Reference model written from docstrings/doc/ and behaviour pinned by the unedited suite (relaxations listed in DESIGN 5.3). Sampled, not exhaustive.'),
  'C04': ('exploration', '4/C04', 'seeded histories over a pool of live objects of every kind; shadow snapshot of every object checked after every derive/mutate/external-actor/generator-step/cache event',
          'Needs no model of what operations compute: only who else changes. File changes by another process are never generated.'),
  'C06': ('exploration', '4/C06', 'seeded histories of stream operations compared in lock-step with a (bits, pos) reference machine; truncation events cut codewords and fixed fields; values are checked against the library\'s own whole-value interpretation of the consumed bits',
          'Interpretations themselves are trusted (C02/C10/C11 not applicable); msb0 only for exp-Golomb.'),
- 'C08': ('exploration', '4/C08', 'object built by a route (text, bytes+window, iterable, bitarray, array, BytesIO, slice/copy, cache hit, file by name/handle with offset/length on a simulated file system with complement slack bytes) and an in-memory twin built from the observed bits receive the same public call; results, exceptions and final contents compared after every event; unlink/append/close/caches as environment events',
+ 'C08': ('exploration', '4/C08', 'object built by a route (text, bytes+window, iterable / generator / one-shot iterator, big- and little-endian bitarray, array, BytesIO, slice/copy, cache hit, file by name/handle with offset/length on a simulated file system with complement slack bytes, incl. 2 MiB files with markers across every power-of-two boundary) and an in-memory twin built from the observed bits receive the same public call; results, exceptions and final contents compared after every event; unlink/append/close/caches as environment events',
          'Little-endian host only. The twin is built from the observed bits: whether the right window was selected is C17/C15.'),
- 'C09': ('exploration', '4/C09', 'two private replicas of the package in one process: W keeps its caches (evicted/resized by injected faults, >256 keys with Zipf reuse), C is cleared before every call; the same construct/parse/pack/unpack/Dtype/Array/option event goes to both and observations must agree; end-of-run restoration check',
+ 'C09': ('exploration', '4/C09', 'two private replicas of the package in one process: W keeps its caches (evicted/resized by injected faults, >256 keys with Zipf reuse), C has every lru_cache cleared and every plain module/class-level container restored before every call; the same construct/parse/pack/unpack/Dtype/Array/option event goes to both and observations must agree; end-of-run restoration check',
          'The cold result is taken as the reference (not independently checked for correctness).'),
  'C12': ('exploration', '4/C12', 'two private replicas: L toggles lsb0 between calls and generator steps, M stays msb0 and receives bit-reversed operands with identical position arguments; results un-mirrored and compared; whole-value interpretations compared across toggles',
          'The oracle is the real msb0 code, as the statement defines the law; split is not in the statement\'s list and is not compared.'),
@@ -22,7 +22,7 @@ CLAIMS = {
          'Encodings of single items are trusted (C02/C11 not applicable).'),
  'C15': ('exploration', '4/C15', 'scoped: (1) bounded-exhaustive enumeration of (source kind, size, offset, length) windows over every byte/bitarray/file source: inside => exact window, outside => CreationError and no object; (2) seeded histories of rejected writes on live targets must be no-ops',
          'Scoped to the two non-pure clauses (short source at a read seam; rejected write has no effect). The full dtype x length x value classification of fresh constructions is a pure function and is met only as workload.'),
- 'C17': ('fault_enumeration', '4/C17', 'recording/faulting writer with every write index a crash point (error, torn, closed), chunk-size knob through the guarded hook, real files with real mmap for every valid (offset,length) read window, Array.fromfile short/exact/long, round trip through the file system',
+ 'C17': ('fault_enumeration', '4/C17', 'recording/faulting writer with every write index a crash point (error, torn, closed), chunk-size knob through the guarded hook, real files with real mmap, byte- and wide-item buffers, fresh / positioned / re-used BytesIO for every valid (offset,length) read window, Array.fromfile short/exact/long, round trip through the file system',
          'Writers follow the buffered BinaryIO contract. Truncation of a mapped file by another process (SIGBUS) is never injected.'),
  'C20': ('exploration', '4/C20', 'reflection-driven random programs over every public callable/property of the four classes, Array, Dtype and pack with arguments drawn from the annotated types and adversarial values, under msb0/lsb0, with faulting writers/producers/streams; transition-based invariant monitor (documented exception classes, len==len(bin), 0<=pos<=len, immutables unchanged, options as left)',
          'Sampled; says nothing about which allowed outcome occurs. MemoryError paths not explored.'),
@@ -87,7 +87,7 @@ m = {
  'engines': engines,
  'checks': checks,
  'not_applicable': sorted(na, key=lambda d: d['property_id']),
- 'notes': 'One technique throughout: deterministic simulation with fault injection (DESIGN.md). Exit status: 0 held, 1 VIOLATION, 2 harness failure. known_findings.txt lists recorded genuine defects (known: - none at present) and repaired ones (fixed:). seeded/ holds 60 independently seeded breaking changes with the check that catches each (tools/seed_recheck.py re-runs them), benign/ 20 legitimate changes on which every check must stay silent (tools/benign_eval.py).',
+ 'notes': 'One technique throughout: deterministic simulation with fault injection (DESIGN.md). Exit status: 0 held, 1 VIOLATION, 2 harness failure. known_findings.txt lists recorded genuine defects (known: - none at present) and repaired ones (fixed:). seeded/ holds the independently seeded breaking changes (four rounds) with the check that catches each (tools/seed_recheck.py re-runs them), benign/ 20 legitimate changes on which every check must stay silent (tools/benign_eval.py).',
 }
 json.dump(m, open(os.path.join(V, 'MANIFEST.json'), 'w'), indent=1)
 print('claimed:', [c['property_id'] for c in checks])
